@@ -42,9 +42,14 @@ var c10DstKinds = []string{"RGBA64", "RGBA", "NRGBA", "NRGBA64", "opaque"}
 var c10Sizes = [][2]int{{0, 0}, {1, 1}, {1, 9}, {11, 1}, {7, 5}, {33, 17}}
 var c10Origins = [][2]int{{0, 0}, {-3, -2}, {5, 9}}
 
+const c10Orbit = 4 // content mode: rows related through the transform itself (in-place cells)
+
 func c10Fn(name string) (perColor func(color.Color) color.RGBA64, run func(dst draw.Image, src image.Image, par int)) {
 	if name == "hash" {
 		return c10Hash, func(d draw.Image, s image.Image, p int) { linear.TransformImageColor(d, s, p, c10Hash) }
+	}
+	if name == "wild" {
+		return c10Wild, func(d draw.Image, s image.Image, p int) { linear.TransformImageColor(d, s, p, c10Wild) }
 	}
 	parts := strings.SplitN(name, ".", 2)
 	s := spaceByName(parts[0])
@@ -55,6 +60,22 @@ func c10Fn(name string) (perColor func(color.Color) color.RGBA64, run func(dst d
 		return s.Linearise, s.LineariseImage
 	}
 	return s.Encode, s.EncodeImage
+}
+
+// c10Wild is a per-colour function that does not return valid premultiplied colours: alpha 0 with
+// non-zero channels, channels above alpha. The property says the destination receives its colour
+// model's conversion of whatever the function returns.
+func c10Wild(c color.Color) color.RGBA64 {
+	h := c10Hash(c)
+	switch h.A % 4 {
+	case 0:
+		return color.RGBA64{R: h.R | 1, G: h.G, B: h.B | 0x100, A: 0}
+	case 1:
+		return color.RGBA64{R: 0xFFFF - h.R, G: h.G, B: 0xFFFF, A: h.A / 2}
+	case 2:
+		return color.RGBA64{R: h.R, G: h.G, B: h.B, A: 0xFFFF}
+	}
+	return h
 }
 
 func c10SubMode(c c10Cell) int {
@@ -105,10 +126,27 @@ func c10Run(c c10Cell) (bad bool, msg string) {
 		}
 	}
 	if c.DstMode == "inplace" {
-		m := newSourceMode(c.Src, sr, c10SubMode(c), c.Content, rng)
+		content := c.Content
+		if content == c10Orbit {
+			content = 0
+		}
+		m := newSourceMode(c.Src, sr, c10SubMode(c), content, rng)
 		d, ok := m.(draw.Image)
 		if !ok || pixOf(m) == nil {
 			return false, "inplace not applicable"
+		}
+		if c.Content == c10Orbit {
+			// every row is the transform of the row `parallelism` above it: what a worker reads in
+			// its next source row equals what it has just written
+			step := c.Par
+			if step < 1 || step >= c.H {
+				step = 1
+			}
+			for y := sr.Min.Y + step; y < sr.Max.Y; y++ {
+				for x := sr.Min.X; x < sr.Max.X; x++ {
+					d.Set(x, y, perColor(d.At(x, y-step)))
+				}
+			}
 		}
 		src, dst, view = m, d, d
 		// the parent buffer of an in-place sub-image is reachable through Pix only; compare the view's Pix
@@ -282,6 +320,28 @@ func c10Cells(seed int64, thorough bool, race bool) []c10Cell {
 			}
 		}
 	}
+	// per-colour functions returning invalid premultiplied colours, through every (src, dst) pair;
+	// in-place cells whose rows are related through the transform itself
+	for _, sk := range c10SrcKinds {
+		for _, dk := range c10DstKinds {
+			for _, mode := range []string{"same", "sub"} {
+				par := 1 + fi%4
+				fi++
+				if race && par == 1 {
+					continue
+				}
+				cells = append(cells, c10Cell{Src: sk, SrcSub: fi%2 == 0, Dst: dk, W: 9, H: 6, OX: 2, OY: 1, DstMode: mode, Par: par, Fn: "wild", Seed: rng.U64()})
+			}
+			if sk == dk && dk != "opaque" && !race {
+				for _, par := range []int{1, 2, 3, 5} {
+					for _, fn := range []string{"hash", fns[fi%len(fns)], "wild"} {
+						fi++
+						cells = append(cells, c10Cell{Src: sk, SrcBand: fi%2 == 0, Dst: dk, W: 8, H: 12, OX: 1, OY: 2, DstMode: "inplace", Par: par, Fn: fn, Content: c10Orbit, Seed: rng.U64()})
+					}
+				}
+			}
+		}
+	}
 	if thorough && !race {
 		// seeded random geometries and a large image per (src,dst)
 		for _, sk := range c10SrcKinds {
@@ -310,6 +370,10 @@ func c10NT(c c10Cell) (string, bool) {
 func runC10(r *core.Run) {
 	r.Rule = "cross product of 15 source kinds x 5 destination kinds x 6 sizes x 3 origins x {same, larger+shifted, sub-image of canary-filled parent, in-place} x parallelism {1,2,3,7,16,rows+5} x {keyed hash transform + library transforms}; every byte of the destination parent buffer compared with an independent At/Set model; a reduced matrix repeated under the race detector. non-trivial = distinct cells with non-zero origin, shifted/sub destination or parallelism != 1 (and at least one pixel)"
 	r.Assumptions = []string{"the per-colour functions themselves are judged by C01/C02/C14; here only their application over images", "standard library colour models"}
+	c10FirstUse(r)
+	if isBurst(r.Variant) {
+		return
+	}
 	cells := c10Cells(r.Seed, r.Thorough(), false)
 	paths := map[string]int64{}
 	for _, c := range cells {
@@ -370,6 +434,13 @@ func runC10(r *core.Run) {
 			}
 		}
 	}
+	if r.Variant == "" {
+		vs := []string{"burst@4", "burst+stagger@8", "burst+rev@16", "burst+rev+stagger@2"}
+		for _, v := range vs {
+			r.RunVariantChild(v, 5*time.Minute, false)
+		}
+		r.Obs("fresh_process_first_use_bursts", vs)
+	}
 	r.Obs("cells_per_code_path", paths)
 	r.Sample(cells[len(cells)/3])
 	r.Sample(cells[2*len(cells)/3])
@@ -390,6 +461,84 @@ func runC10(r *core.Run) {
 	r.Obs("race_pass_cells", raceCells)
 	r.Obs("race_reports", len(reports))
 	c10Races(r, reports, "C10")
+}
+
+// c10FirstUse: the first image transforms of the process, per space and direction, are made by
+// eight goroutines at once on images that contain every 16-bit code; each result is compared with
+// the per-colour function afterwards. (Lazily built tables must not be observable through the
+// image entry points either.)
+func c10FirstUse(r *core.Run) {
+	const side = 256
+	rect := image.Rect(0, 0, side, side)
+	src := image.NewNRGBA64(rect)
+	for i := 0; i < side*side; i++ {
+		c := color.NRGBA64{R: uint16(i), G: uint16(65535 - i), B: uint16(i * 7), A: 65535}
+		src.SetNRGBA64(i%side, i/side, c)
+	}
+	type job struct {
+		s   *libSpace
+		enc bool
+	}
+	var jobs []job
+	for _, s := range libSpaces {
+		jobs = append(jobs, job{s, false}, job{s, true})
+	}
+	if strings.Contains(r.Variant, "rev") {
+		for i, j := 0, len(jobs)-1; i < j; i, j = i+1, j-1 {
+			jobs[i], jobs[j] = jobs[j], jobs[i]
+		}
+	}
+	const G = 8
+	out := make([][]*image.RGBA64, len(jobs))
+	for j := range out {
+		out[j] = make([]*image.RGBA64, G)
+		for g := range out[j] {
+			out[j][g] = image.NewRGBA64(rect)
+		}
+	}
+	body := func(g, ph int) {
+		defer func() {
+			if p := recover(); p != nil {
+				r.Violate("first-use", "panic", fmt.Sprintf("first image transform of the process panicked: %v", p), map[string]any{"variant": r.Variant})
+			}
+		}()
+		jb := jobs[ph]
+		if jb.enc {
+			jb.s.EncodeImage(out[ph][g], src, 1+g%3)
+		} else {
+			jb.s.LineariseImage(out[ph][g], src, 1+g%3)
+		}
+	}
+	if strings.Contains(r.Variant, "stagger") {
+		for ph := range jobs {
+			ph := ph
+			firstUseBurst(G, true, func(g int) { body(g, ph) })
+		}
+	} else {
+		firstUsePhases(G, len(jobs), body)
+	}
+	for ph, jb := range jobs {
+		f, name := jb.s.Linearise, jb.s.Name+".LineariseImage"
+		if jb.enc {
+			f, name = jb.s.Encode, jb.s.Name+".EncodeImage"
+		}
+		want := image.NewRGBA64(rect)
+		for i := 0; i < side*side; i++ {
+			want.SetRGBA64(i%side, i/side, f(src.NRGBA64At(i%side, i/side)))
+		}
+		for g := 0; g < G; g++ {
+			r.AddEvals(1)
+			if !bytes.Equal(out[ph][g].Pix, want.Pix) {
+				i := 0
+				for out[ph][g].Pix[i] == want.Pix[i] {
+					i++
+				}
+				px := i / 8
+				r.Violate("first-use", name+"/first-use", fmt.Sprintf("%s as one of the first %d concurrent calls of the process (variant %q): pixel (%d,%d) = %v, the per-colour function gives %v", name, G, r.Variant, px%side, px/side, out[ph][g].RGBA64At(px%side, px/side), want.RGBA64At(px%side, px/side)), map[string]any{"transform": name, "variant": r.Variant})
+				break
+			}
+		}
+	}
 }
 
 func c10ParseChild(r *core.Run, out []byte) int64 {
@@ -421,6 +570,9 @@ func c10ParseChild(r *core.Run, out []byte) int64 {
 }
 
 func childC10(args []string) int {
+	if len(args) > 0 && isBurst(args[0]) {
+		return variantChild("C10", "exploration", runC10)(args)
+	}
 	thorough := len(args) > 0 && args[0] == "thorough"
 	cells := c10Cells(core.Seed(), thorough, true)
 	w := bufio.NewWriter(os.Stdout)
